@@ -4,4 +4,4 @@ From Coq Require Import ZArith QArith List Extraction ExtrOcamlBasic.
 From Inf Require Import base.ExtrBase model.PathM model.EngineM model.PollM.
 Extraction Language OCaml.
 Extraction "extract/c12_model.ml" extr_anchor empty_path ord_lookup lammps_run cp2k_run
-  gromacs_run inproc_loop own_stream every_from propagate_loop_x.
+  gromacs_run inproc_loop own_stream every_from propagate_loop_x calculate_order_args inproc_loop_args.
